@@ -189,6 +189,24 @@ def run(ctx: Ctx):
     ctx.floor("Result sites in min_cost_flow", len(result_sites(f)), 2)
     piv = [n for n in own_nodes(ns.node) if isinstance(n, ast.While) and "max_iter" in names_in(n.test)]
     ctx.ob("C09-O3", "R2 BUDGET-EXIT", ns, "the pivot loop runs while the iteration budget lasts and counts every round", len(piv) == 1 and ast.unparse(piv[0].test) == "iterations < max_iter" and ast.unparse(piv[0].body[0]) == "iterations += 1", "", node=piv[0] if piv else ns.node)
+    # a budget exit proves nothing: every verdict after the pivot loop (OPTIMAL, and INFEASIBLE from loaded artificial
+    # arcs) is given only when a pricing round found no entering arc
+    conv_sets = [n for n in own_nodes(ns.node) if isinstance(n, ast.Assign) and ast.unparse(n.targets[0]) == "converged"]
+    conv_true = [n for n in conv_sets if ast.unparse(n.value) == "True"]
+    okc = len(conv_sets) == 2 and len(conv_true) == 1
+    if okc:
+        at = ngv.guard_atoms(ncfg.node_of(conv_true[0]), stable_only=False)
+        okc = atom_of("entering == -1") in at and piv and ncfg.node_of(conv_true[0]).loop is not None
+    ctx.ob("C09-O3", "R2 BUDGET-EXIT", ns, "the convergence flag starts false and is raised only by a pricing round without entering arc", bool(okc), f"{[ast.unparse(c) for c in conv_sets]}", node=conv_true[0] if conv_true else ns.node)
+    loop_node = ncfg.stmt_node_containing(piv[0].test) if piv else None
+    for k, s in enumerate(sites):
+        if loop_node is None or not ncfg.dominates(loop_node, s.node):
+            continue
+        at = ngv.guard_atoms(s.node, stable_only=False)
+        if "MAX_ITER" in s.statuses:
+            ctx.ob("C09-O3", "R2 BUDGET-EXIT", ns, f"Result#{k} MAX_ITER exactly when the flag is down", "F:converged" in at and ast.unparse(s.arg("solution")) == "None", f"{sorted(at)[:4]}", node=s.call)
+        else:
+            ctx.ob("C09-O3", "R2 BUDGET-EXIT", ns, f"Result#{k} ({'/'.join(sorted(s.statuses))}) is given only after a pricing round proved optimality", "T:converged" in at, f"{sorted(at)[:5]}: when the pivot budget runs out the flow at hand is unproven - with artificial arcs still loaded a feasible instance would be called INFEASIBLE, otherwise a non-minimal cost OPTIMAL", node=s.call)
     # ---- O7 pivot mechanics of the network simplex
     tns = ast.unparse(ns.node)
     # arc table: a faithful copy of the input, artificial arcs mirrored by the sign of the supply
@@ -211,7 +229,7 @@ def run(ctx: Ctx):
         i = blk.index(r)
         ok = ok and i > 0 and ast.unparse(blk[i - 1]) in ("u, v = (source[arc], target[arc])", "u, v = (source[entering], target[entering])")
     ctx.ob("C09-O7", "R18 SIBLING-AGREEMENT (expression)", ns, "reduced cost = cost - pi[tail] + pi[head], the same at the pricing and at the pivot site", ok, "", node=rcs[0] if rcs else ns.node)
-    pricing = "if state[arc] == 0:\n                continue" in tns and "if state[arc] == 1 and rc < best_cost:\n                best_cost = rc\n                entering = arc\n            elif state[arc] == -1 and -rc < best_cost:\n                best_cost = -rc\n                entering = arc" in tns and "entering = -1\n        best_cost = -1e-09" in tns and "if entering == -1:\n            break" in tns
+    pricing = "if state[arc] == 0:\n                continue" in tns and "if state[arc] == 1 and rc < best_cost:\n                best_cost = rc\n                entering = arc\n            elif state[arc] == -1 and -rc < best_cost:\n                best_cost = -rc\n                entering = arc" in tns and "entering = -1\n        best_cost = -1e-09" in tns and "if entering == -1:\n            converged = True\n            break" in tns
     ctx.ob("C09-O7", "R21 search discipline", ns, "pricing: a non-basic arc enters if raising it from its lower bound (rc < 0) or lowering it from its upper bound (rc > 0) pays; the most violating one is kept; no candidate -> optimal", pricing, "", node=ns.node)
     direction = "if rc < 0:\n            delta = cap[entering] - flow[entering]\n            first, second = (u, v)\n        else:\n            delta = flow[entering]\n            first, second = (v, u)" in tns and "if rc < 0:\n            flow[entering] += delta\n        else:\n            flow[entering] -= delta" in tns
     ctx.ob("C09-O7", "R4 SIGN-UNIT", ns, "the entering arc is pushed up to its spare capacity when rc < 0 and down to zero otherwise, and the cycle is traversed accordingly", direction, "", node=ns.node)
@@ -399,7 +417,13 @@ def _t_reformat(tree):
     pass
 
 
+def _v_budget_exit_falls_through(tree):
+    g = M.find_func(tree, "network_simplex")
+    M.replace_stmt(g, lambda s: isinstance(s, ast.If) and M.src_is(s.test, "not converged"), [])
+
+
 VARIANTS = [
+    M.Variant("network_simplex falls through to its verdicts when the pivot budget runs out (original defect)", NS, _v_budget_exit_falls_through, "C09-O3"),
     M.Variant("network_simplex keeps the last parallel arc only (original defect)", NS, _v_flowdict_comprehension, "C09-O5"),
     M.Variant("network_simplex cost includes artificial arcs", NS, _v_cost_includes_artificial, "C09-O3"),
     M.Variant("artificial-flow test skips the first artificial arc", NS, _v_artificial_range, "C09-O3"),
